@@ -21,6 +21,7 @@ V = Union[None, bool, int, float, str]
 VL = Union[None, bool, int, str, List[Union[None, bool, int, str]], Dict[str, Union[None, bool, int, str]]]
 NSTR = hx.tier(3, 4)
 
+ITEM = hx.ITEM if '.' in hx.ITEM else 'E.i'
 SPECS = fixtures.read_specs('holes')
 TEXT = SPECS[0][1]
 BASE = fe.parse(TEXT, SPECS[0][0])
@@ -36,6 +37,7 @@ RULES = {
     'li': ('list-int', 0, 2**31 - 1, 2, False), 'ls': ('list-str', 2, True), 'm': ('map-int', True),
     'inner': ('ref', ('default', 'other'), False), 'oinner': ('ref', ('default', 'other'), True),
     'un': ('ref', ('default', 'numex', 'v'), False),
+    'ts': ('text', True), 'byt': ('text', True),
 }
 TEMPLATE_VALUES = {'i': '0', 'u': '1', 'f': '1.5', 'b': 'true', 's': '"ab"', 'p': '"abc"', 'li': '[1]',
                    'inner': 'default', 'un': 'default'}
@@ -53,7 +55,7 @@ def oracle_for(field, present, v):
     kind = rule[0]
     if v is None:
         # "null can be used to mark that a nullable type is not present"
-        if field in ('oi', 'ls', 'm', 'oinner'):
+        if field in ('oi', 'ls', 'm', 'oinner', 'ts', 'byt'):
             return 'accept'
         return 'reject'
     if isinstance(v, A.AstExampleRef):
@@ -80,6 +82,10 @@ def oracle_for(field, present, v):
         return 'accept' if v <= rule[2] else 'reject'
     if kind == 'bool':
         return 'accept' if isinstance(v, bool) else 'reject'
+    if kind == 'text':
+        if isinstance(v, (list, dict)):
+            return 'reject'
+        return 'unspec' if isinstance(v, str) else 'reject'
     if kind == 'str':
         if not isinstance(v, str):
             return 'reject'
@@ -163,17 +169,24 @@ def _fidelity(struct, field, present, v):
 
 
 def _runtime(struct):
+    """every example of every struct / union of the template decodes strictly and encodes back to itself"""
     def check(api):
-        dt = api.namespaces['ex'].data_type_by_name[struct]
-        validator = getattr(EXMOD, struct + '_validator')
-        for label, ex in dt.get_examples().items():
-            doc = _plain(ex.value)
-            try:
-                val = ss.json_compat_obj_decode(validator, doc, strict=True)
-            except bv.ValidationError:
-                return False
-            if _plain(ss.json_compat_obj_encode(validator, val)) != doc:
-                return False
+        everything = hx.ITEM.startswith('E.i')       # one instance family re-checks every type of the template
+        for dt in api.namespaces['ex'].data_types:
+            if not everything and dt.name != struct:
+                continue
+            validator = getattr(EXMOD, dt.name + '_validator')
+            catch_all = [f.name for f in dt.all_fields if getattr(f, 'catch_all', False)]
+            for label, ex in dt.get_examples().items():
+                if label in catch_all:
+                    continue                  # C10 excludes the implicit example of a catch-all tag
+                doc = _plain(ex.value)
+                try:
+                    val = ss.json_compat_obj_decode(validator, doc, strict=True)
+                except bv.ValidationError:
+                    return False
+                if _plain(ss.json_compat_obj_encode(validator, val)) != doc:
+                    return False
         return True
     return check
 
@@ -201,6 +214,7 @@ _TG = ['stone.frontend.ir_generator:IRGenerator._populate_examples']
 _OUT = ['syntax-level errors', 'more than one symbolic example field at a time', 'booleans as numbers, integers as '
         'float examples (accepted; not judged)', 'Bytes / Timestamp examples']
 SCALAR_FIELDS = ['i', 'u', 'b', 's', 'p', 'oi', 'd']
+TEXT_FIELDS = ['ts', 'byt']
 
 
 def _items(fields):
@@ -210,17 +224,19 @@ def _items(fields):
 def _accepting(items):
     """C02 / C10 judge accepted specs only: drop the instances in which nothing can be accepted"""
     if hx.ASPECT in ('C02', 'C10'):
-        return [it for it in items if it not in ('E.i@float', 'E.s@float', 'E.inner@container', 'E.i@ref', 'E.li@ref')]
+        return [it for it in items if it not in ('E.i@float', 'E.s@float', 'E.inner@container', 'E.i@ref', 'E.li@ref',
+                                                  'E.i@container')]
     return items
 
 
-@hx.harness(props=['C01', 'C02', 'C03', 'C10'], targets=_TG, items=lambda: _items(SCALAR_FIELDS),
+@hx.harness(props=['C01', 'C02', 'C03', 'C10'], targets=_TG, items=lambda: _items(SCALAR_FIELDS) + ([] if hx.ASPECT in ('C02', 'C10') else ['E.ts', 'E.byt']),
             bound='example value of one primitive field (present or absent): null, bool, any int, string <= %d chars over '
                   '{a,b,1,space,",\\}; also for the inherited field of a child struct' % NSTR, outside=_OUT,
             budget=(150, 400))
 def scalar_example(present: bool, v: Union[None, bool, int, str]) -> bool:
     """
     pre: _str_ok(v)
+    pre: ITEM.split('.')[1] not in TEXT_FIELDS or not isinstance(v, str)
     post: _
     """
     struct, field = hx.ITEM.split('.')
@@ -242,17 +258,20 @@ def float_example(v: float) -> bool:
 LIST_FIELDS = ['li', 'ls', 'm', 'i', 'inner']
 
 
-@hx.harness(props=['C01', 'C02', 'C03', 'C10'], targets=_TG, items=lambda: [x.split('@')[0] for x in _accepting(['E.%s@container' % f for f in LIST_FIELDS])],
-            bound='example value that is a list (<= 2 items) or a map (keys from {k, kk}) of null/bool/int/string(<= 2), '
-                  'or a scalar, for a list / map / scalar / struct typed field', outside=_OUT, budget=(200, 600))
-def container_example(kind: int, a: Union[None, bool, int, str], b: Union[None, bool, int, str], n: int) -> bool:
+@hx.harness(props=['C01', 'C02', 'C03', 'C10'], targets=_TG, items=lambda: [it for it in ['%s/%d' % (x.split('@')[0], k)
+                                         for x in _accepting(['E.%s@container' % f for f in LIST_FIELDS]) for k in range(3)]
+                           if hx.ASPECT not in ('C02', 'C10') or it in ('E.li/0', 'E.ls/0', 'E.m/1')],
+            bound='example value that is (0) a list (<= 2 items) (1) a map (keys from {k, kk}) of null/bool/int/string(<= 2), '
+                  '(2) a scalar, for a list / map / scalar / struct typed field', outside=_OUT, budget=(200, 600))
+def container_example(a: Union[None, bool, int, str], b: Union[None, bool, int, str], n: int) -> bool:
     """
-    pre: 0 <= kind <= 2 and 0 <= n <= 2
+    pre: 0 <= n <= 2
     pre: not isinstance(a, str) or (len(a) <= 2 and re.fullmatch('[ab1 ]*', a) is not None)
     pre: not isinstance(b, str) or (len(b) <= 2 and re.fullmatch('[ab1 ]*', b) is not None)
     post: _
     """
-    struct, field = hx.ITEM.split('.')
+    kind = int(hx.ITEM.split('/')[1])
+    struct, field = hx.ITEM.split('/')[0].split('.')
     if kind == 0:
         v = [a, b][:n]
     elif kind == 1:
